@@ -66,6 +66,12 @@ CHECKS = {
          'Per quick run ~750 executed schedules (every "A runs k line-steps, B to completion" for both roles and all k until the first thread finishes, sampled two-preemption and random schedules) over 4 scenarios (racing first render of a lazy file template, auto-reload after a file change, shared loader, load: chain), each result compared with the same call run alone; distinct interleaving signatures and context switches inside monitored code are counted; 7 680 stress renders under a 1 microsecond switch interval with yield injection; 4 384 history renders with argument snapshots; 6 templates x 6 bindings re-rendered in fresh interpreters under 4 hash seeds.',
          'Trusted: line granularity of the scheduler (switches inside one line or inside generated render code are reached only by the stress layer); a thread that does not reach its next event within 0.25 s is treated as blocked on one of the program\'s own locks.',
          'DESIGN.md §3 C14'),
+ 'C01': ('model-diff+metamorphic',
+         'runtime history checking: generated TAL programs rendered by the real engine with a recording callable at every statement argument; (output | exception, evaluation log) compared with an executable reference model; metamorphic equality across permutations of the statement attributes',
+         'exploration',
+         '~26 000 (quick) / ~450 000 (thorough) executed (program, binding table, attribute permutation) triples: an exhaustive layer over every admissible subset of {define, condition, repeat, switch, case, content|replace, omit-tag, attributes} on one element with all permutations of up to 4 statement attributes and several value vectors, and a random layer of nested programs (switch/case across levels, tuple defines and repeats, global defines, tal: namespace elements, one planted failure in 15% of the tables) with visibility probes between the elements.',
+         'Trusted: the reference model vlib/tmodel.py (about 200 lines, never calls Chameleon); the order of attribute expressions inside one start tag is compared as a multiset (DESIGN §2.3); generator exclusions in the evidence rule.',
+         'DESIGN.md §3 C01'),
 }
 NOT_YET = {}
 
